@@ -836,7 +836,9 @@ Patch Parser::parse_context_patch(Patch& patch)
         get_line(line);
         m_file.seekg(pos);
 
-        if (!starts_with(line, "***"))
+        // Another hunk begins with a line of stars, optionally followed by the function name,
+        // or directly with the range of the old file if the separator is missing.
+        if (!starts_with(line, "***************") && !(starts_with(line, "*** ") && ends_with(line, " ****")))
             return patch;
     }
 }
@@ -960,14 +962,27 @@ Patch Parser::parse_normal_patch(Patch& patch)
     NewLine newline;
     std::string patch_line;
 
-    while (get_line(patch_line)) {
+    while (true) {
+        auto pos = m_file.tellg();
+        if (!get_line(patch_line))
+            break;
+
         if (m_file.eof() || patch_line.empty())
             break;
 
-        patch.hunks.emplace_back();
+        Hunk next_hunk;
+        if (!parse_normal_range(next_hunk, patch_line)) {
+            if (patch.hunks.empty())
+                throw std::invalid_argument("Unable to parse normal range command: " + patch_line);
+
+            // This line is not part of this patch. Leave it for whatever is coming next.
+            --m_line_number;
+            m_file.seekg(pos);
+            break;
+        }
+
+        patch.hunks.push_back(next_hunk);
         auto& current_hunk = patch.hunks.back();
-        if (!parse_normal_range(current_hunk, patch_line))
-            throw std::invalid_argument("Unable to parse normal range command: " + patch_line);
 
         for (LineNumber i = 0; i < current_hunk.old_file_range.number_of_lines; ++i) {
             if (!get_line(patch_line, &newline))
